@@ -32,7 +32,7 @@ for d in sorted(glob.glob(ROOT + '/seeded/C*')):
         continue
     notes = open(d + '/notes.md').read() if os.path.exists(d + '/notes.md') else ''
     title = notes.splitlines()[0].lstrip('# ').strip() if notes else ''
-    change = re.sub(r'^C\d\d\s*/?\s*[Cc]hange\s+[A-H]\s*[-—–:]+\s*', '', title)
+    change = re.sub(r'^C\d\d\s*/?\s*[Cc]hange\s+[A-J]\s*[-—–:]+\s*', '', title)
     sec = sections(notes)
     clause = next((v for k, v in sec.items() if 'lause' in k), '')
     needs = next((v for k, v in sec.items() if 'manifest' in k.lower()), '')
@@ -43,7 +43,7 @@ for d in sorted(glob.glob(ROOT + '/seeded/C*')):
         'clause_broken': squash(clause),
         'needs_in_order_to_manifest': squash(needs),
         'files': sorted(f for f in os.listdir(d) if f != 'meta.json'),
-        'origin': 'independent sub-agent given only the property text and a scratch worktree (%s round: told which ideas had been used before and asked for different mechanisms); rebased by hand where patch.original.diff exists' % ({'C':'second','D':'second','E':'third','F':'third','G':'fourth','H':'fourth'}.get(name[-1],'second')),
+        'origin': 'independent sub-agent given only the property text and a scratch worktree (%s round: told which ideas had been used before and asked for different mechanisms); rebased by hand where patch.original.diff exists' % ({'C':'second','D':'second','E':'third','F':'third','G':'fourth','H':'fourth','I':'fifth','J':'fifth'}.get(name[-1],'second')),
     }
     for k in ('confirmation', 'detection'):
         if k in m:
